@@ -75,7 +75,11 @@ var addCmd = &cobra.Command{
 			return errors.New("nothing specified, nothing added")
 		}
 		for _, arg := range args {
-			if _, err := os.Stat(arg); err != nil {
+			if arg == "" {
+				return ErrInvalidArgs
+			}
+			// look at the same (cleaned) path that is looked up in the index: "a/" names the file a
+			if _, err := os.Stat(filepath.Clean(arg)); err != nil {
 				// If the file does not exist but is registered in the index, delete it from the index
 				// but not delete here, just check it
 				cleanedArg := filepath.Clean(arg)
@@ -96,7 +100,7 @@ var addCmd = &cobra.Command{
 			}
 
 			// If the file does not exist but is registered in the index, delete it from the index
-			if _, err := os.Stat(arg); err != nil {
+			if _, err := os.Stat(filepath.Clean(arg)); err != nil {
 				_, _, isEntryFound := client.Idx.GetEntry([]byte(cleanedArg))
 				if isEntryFound {
 					if err := client.Idx.DeleteEntry(client.RootGoitPath, []byte(cleanedArg)); err != nil {
@@ -127,7 +131,7 @@ var addCmd = &cobra.Command{
 			}
 
 			// directory
-			if f, err := os.Stat(arg); err == nil && f.IsDir() {
+			if f, err := os.Stat(filepath.Clean(arg)); err == nil && f.IsDir() {
 				filePaths, err := file.GetFilePathsUnderDirectory(path)
 				if err != nil {
 					return fmt.Errorf("fail to get file path under directory: %w", err)
